@@ -1034,7 +1034,8 @@ def run(only=None):
     if want("other_serialisation_paths"):
         s = rep.sub("other_serialisation_paths",
                     "data headers serialised through TransmissionGenerator (header announcing the produced block count and header announcing 0 "
-                    "blocks behind a preamble) x 3 rates x confirmed/unconfirmed x payload lengths: the header burst parses with crc_ok true; "
+                    "blocks behind a preamble) x 3 rates x confirmed/unconfirmed x payload lengths: the header burst parses with crc_ok true, every "
+                    "burst with slot-type parity ok, every confirmed block (parsed back as the kind of block the generator made) with crc9_ok true; "
                     "short LCs handed over octet-packed (40 bits, 4 zero pad bits): valid -> crc_ok true, every single-bit error in the 36 bits -> false")
         from okdmr.dmrlib.transmission.transmission_generator import TransmissionGenerator as _TG
         from okdmr.dmrlib.etsi.layer2.burst import Burst as _Burst
@@ -1069,8 +1070,13 @@ def run(only=None):
                                                 "a data header serialised by the transmission generator parses back with crc_ok false")
                                 if not p_.slot_type.fec_parity_ok:
                                     s.violation("generator_serialised_burst_reports_slot_parity_invalid", case)
-                                if confirmed and hasattr(p_.data, "crc9_ok"):
-                                    pass  # block typing needs the transmission context: covered by C07
+                                if confirmed and isinstance(b.data, cls_) and isinstance(p_.data, cls_):
+                                    # a confirmed block as the generator serialised it, parsed back as the kind of block the generator
+                                    # made (the burst alone does not say): its CRC-9 covers serial number and data and must be reported valid
+                                    typed = cls_.from_bits_typed(p_.data.as_bits(), b.data.packet_type)
+                                    if typed.crc9_ok is not True:
+                                        s.violation("generator_serialised_confirmed_block_reports_crc9_invalid", {**case, "dbsn": typed.dbsn, "packet_type": b.data.packet_type.name},
+                                                    "a confirmed data block serialised by the transmission generator parses back with crc9_ok false")
                         except Exception as e:
                             s.violation("exception_generator_path:" + exc_sig(e), case, repr(e))
                         s.case(nontrivial=True, calls=6, outcome=("generator", announce), sample=case if n_cases == 2 else None)
